@@ -118,7 +118,14 @@ func runC05(r *Report) {
 						})
 						// a broadcaster goroutine woken by the context
 						bc := false
-						for _, a := range fn.AnonFuncs {
+						// goroutines started by this function: closures and named functions alike
+						started := append([]*ssa.Function{}, fn.AnonFuncs...)
+						for _, gs := range Sites(fn, func(in ssa.Instruction) bool { _, ok := in.(*ssa.Go); return ok }) {
+							if callee := gs.Instr.(*ssa.Go).Call.StaticCallee(); callee != nil && callee.Blocks != nil && r.P.InModule(callee) {
+								started = append(started, callee)
+							}
+						}
+						for _, a := range started {
 							recvCtx, brd := false, false
 							for _, ab := range a.Blocks {
 								for _, ain := range ab.Instrs {
@@ -150,7 +157,15 @@ func runC05(r *Report) {
 	}
 	r.Anchor("R05b", "blocking waits in context-carrying functions", nWait >= 10)
 	// the cancellation broadcaster obeys the monitor rule
-	monitorRule(r, "R05b-monitor", func(fn *ssa.Function) bool { return FuncName(fn) == "rueidis.(*pool).Acquire" })
+	acquireFamily := map[string]bool{"rueidis.(*pool).Acquire": true}
+	if af := r.P.Fn("rueidis.(*pool).Acquire"); af != nil {
+		for _, gs := range Sites(af, func(in ssa.Instruction) bool { _, ok := in.(*ssa.Go); return ok }) {
+			if callee := gs.Instr.(*ssa.Go).Call.StaticCallee(); callee != nil {
+				acquireFamily[FuncName(callee)] = true
+			}
+		}
+	}
+	monitorRule(r, "R05b-monitor", func(fn *ssa.Function) bool { return acquireFamily[FuncName(TopFunc(fn))] })
 
 	// R05c: deadline plumbing
 	writes := []string{"rueidis.writeCmd", "rueidis.flushCmd", "bufio.(*Writer).Flush"}
